@@ -199,7 +199,8 @@ def parseEncoding (e : SExp) : Option (Option Encoding) :=
       let sz ← sz.int?; let enc ← enc.str?; let bo ← bo.str?; let cals ← parseCals cals
       let isF : Bool := k == "float"
       pure (cals.map (fun c =>
-        let ne : NumEnc := { isFloat := isF, size := sz, encoding := enc, byteOrder := bo, cals := c }
+        let ne : NumEnc := { isFloat := isF, size := sz, encoding := if isF then normFloatEncoding enc else enc,
+                             byteOrder := bo, cals := c }
         Encoding.num ne))
     else none
   | .list [.atom "str", enc, fixed, dyn, lk, uc, adj, term, lead, bo] => do
